@@ -31,9 +31,18 @@ class PendingEnd(Auto):
         return state[0]
 
     def event(self, state, ev, where):
+        if state[0] == "R":
+            return state  # absorbing: the parked error has been taken out of the reader
+        if ev[0] == "prim" and ev[1] in ("give_up", "give_up_at"):
+            # raising an error consults *and takes* the parked I/O error: the value must be returned
+            site = "%s [%s]" % (short(where[1].id), where[1].loc(where[2]))
+            return ("R", site)
         if ev[0] == "narrow":
             tag, now = ev[1], ev[2]
             names = set(n for n, _ in now[2])
+            if tag == "iochk" and names == {"Err"}:
+                site = "%s [%s]" % (short(where[1].id), where[1].loc(where[2]))
+                return ("R", site)
             if tag == "look":
                 if names == {"Some"}:
                     return ("C", None)
@@ -162,6 +171,14 @@ def run_r1(ctx, rule):
                 if sh.startswith("Err") or sh == "Fallthrough" or sh == "Res(Err)":
                     continue
                 checked += 1
+                raised = sorted(set(s[1] for s in states if s[0] == "R"))
+                rule.check(
+                    not raised,
+                    "%s/%s/entry-%s/raised" % (nid, sh, st[0]),
+                    "%s never returns %s (entry %s) after an error value was raised: raising takes the parked I/O error out of the reader, so the value must be what is returned%s"
+                    % (nid, sh, st[0], "" if not raised else " -- raised at: " + "; ".join(raised)),
+                    fn.loc(),
+                )
                 pend = sorted(s[1] for s in states if s[0] == "P")
                 what = "%s returns %s (entry %s) only after the parked I/O error was consulted" % (nid, sh, st[0])
                 if not pend:
